@@ -47,7 +47,7 @@ structure Env where
   bounded : List Nat
   /-- per chain: the mask dicts yielded by `factor_iter_names` -/
   factorMasks : List (List (List (Nat × Val)))
-  /-- per chain: indices of its decays (into `St.ls`) -/
+  /-- per chain: indices of its decays (into `St.ls`); chains that share a decay object share the index -/
   chainDecays : List (List Nat)
   deriving Repr
 
@@ -61,11 +61,14 @@ structure St where
   chainsIdx : List Nat
   /-- `decay_group.not_full` -/
   notFull : Bool
-  /-- `mask_factor` of every chain and decay (order of `temp_total_gls_one`) -/
+  /-- `mask_factor` of every DISTINCT chain and decay object (first occurrence in the `mask_part` list of
+  `temp_total_gls_one`).  The code's list repeats a decay object shared by several chains; because it reads all old
+  values before it sets any, every repetition records the same old value and the per-object reading is exact. -/
   maskFactor : List Bool
   /-- values of the observed configuration keys -/
   config : List Val
-  /-- per decay: the selected ls couplings as indices into `total_ls` -/
+  /-- per DISTINCT decay object (a decay shared by several chains is one entry): the selected ls couplings as
+  indices into `total_ls` -/
   ls : List (List Nat)
   deriving DecidableEq, Repr
 
